@@ -220,11 +220,24 @@ func (fc *FnCtx) binop(op token.Token, x, y Term, t types.Type, yt types.Type) (
 		case token.MUL:
 			return wrapMul(Mul(x, y), bits, signed), none
 		case token.QUO:
+			if c, ok := intConst(y); ok && c > 0 {
+				// division by a positive constant cannot overflow; for non-negative x it is floor division
+				if signed {
+					return tdiv(x, y), none
+				}
+				return mk(SInt, "div", x, y), none
+			}
 			if signed {
 				return wrapOnce(tdiv(x, y), bits, signed), Not(Eq(y, IntLit(0)))
 			}
 			return mk(SInt, "div", x, y), Not(Eq(y, IntLit(0)))
 		case token.REM:
+			if c, ok := intConst(y); ok && c > 0 {
+				if signed {
+					return trem(x, y), none
+				}
+				return mk(SInt, "mod", x, y), none
+			}
 			if signed {
 				return trem(x, y), Not(Eq(y, IntLit(0)))
 			}
